@@ -202,8 +202,10 @@ def run(chk):
                 res = [p for p in chk.explore(fk_it, run_t, assumptions=facts + pos) if p.decisions[:len(prefix)] == list(prefix)]
             for p in res:
                 if p.kind != "return":
+                    # an exception on the hand-built Inv-state can be an artefact (e.g. a field the real constructor sets):
+                    # it counts only if real polygons reproduce a wrong / failing inertia tensor
                     chk.record(f"inertia_tensor:returns[{chart}:{path_tag(p)}]", fk_it, "refuted", "path", model={},
-                               detail=f"{type(p.exc).__name__}: {p.exc}", replay=replay_polygon("inertia_tensor"))
+                               detail=f"{type(p.exc).__name__}: {p.exc}", replay=replay_polygon("inertia_tensor"), abstracted=True)
                     continue
                 t = f"{chart}:{path_tag(p)}"
                 it, R, before, after = p.value
